@@ -89,7 +89,7 @@ def check(run):
     okp = len(pops) == 1 and [q.render(osw, a) for a in pops[0]['args']] == ['&m_server_out_buffer[0]', '&m_server_out_buffer[bytes_transferred]', '(m_num_server_out_bytes - bytes_transferred)']
     dec = [a for a in q.field_accesses(osw, {H + '::m_num_server_out_bytes'}) if a.kind == 'compound' and a.method == '-=' and q.linform(osw, a.site['rhs']) == ({'bytes_transferred': 1}, 0)]
     cont = [c for c in osw.calls() if c.get('usr') == wsb.usr]
-    okc = bool(cont) and all(any(q.cmp_atom(a) and q.render(osw, q.cmp_atom(a)[1]) == 'm_num_server_out_bytes' and q.cmp_atom(a)[0] == '>' and p for a, p in q.guards_at(osw, c)) for c in cont)
+    okc = bool(cont) and all(any(q.cmp_atom(a) and q.render(osw, q.cmp_atom(a)[1]) == 'm_num_server_out_bytes' and q.int_value(q.cmp_atom(a)[2]) == 0 and (q.cmp_atom(a)[0] if p else q.NEG[q.cmp_atom(a)[0]]) == '>' for a, p in q.guards_at(osw, c)) for c in cont)
     run.check(okp and len(dec) == 1 and pops and q.precedes(osw, pops[0], dec[0].site) and okc, 'R9', 'pipeline-pop-written', H + '::on_server_write', osw.loc(),
               'the bytes removed from the pipeline are not exactly the bytes the write reported (memmove of the remainder to the front, count -= bytes_transferred, continue while > 0)', 'exactly bytes_transferred removed from the front; continues while non-empty')
     clr = [a for a in q.field_accesses(osw, {H + '::m_writing_to_server'}) if a.kind == 'assign' and q.strip_casts(a.site['rhs']).get('v') is False]
@@ -104,17 +104,21 @@ def check(run):
     decc = [a for a in q.field_accesses(orr, {H + '::m_num_client_in_bytes'}) if a.kind == 'compound' and a.method == '-=' and q.render(orr, a.site['rhs']) == 'req_len']
     run.check(len(pr_) == 1 and len(fw_) == 1 and q.precedes(orr, pr_[0], fw_[0]) and okpop and len(decc) == 1 and q.precedes(orr, fw_[0], popc[0]), 'R9', 'requests-in-order', H + '::on_read_request', orr.loc(),
               'requests are not taken from the front of the client buffer one at a time (parse, forward, pop exactly req_len)', 'parse -> forward -> pop req_len, repeated while a complete request is buffered')
-    # any loop form whose condition is `req_len >= 0`, req_len being defined only by find_request_len over the client buffer
-    loops = [n for n in orr.all_nodes() if n['k'] in ('while', 'for', 'do') and is_node(n.get('cond')) and q.render(orr, n['cond']) in ('(req_len >= 0)', '(0 <= req_len)', '!(req_len < 0)')]
-    rl = [x for n in loops for x in walk(n['cond']) if x['k'] == 'ref' and x.get('name') == 'req_len']
-    if rl:
-        defs = q.local_defs(orr, rl[0]['did'])
-        if not defs or not all(q.render(orr, d).endswith('find_request_len(m_client_in_buffer, m_num_client_in_bytes)') for _s, d in defs):
-            loops = []
-        # the loop body must contain the forward and end with a fresh scan (a definition of req_len after the pop)
-        elif not (popc and any(q.precedes(orr, popc[0], s_) or orr.cfg._reaches(orr.cfg.node_block(popc[0]), orr.cfg.node_block(s_)) for s_, d in defs if s_['k'] != 'decl' or len(defs) == 1)):
-            loops = []
-    run.check(len(loops) == 1, 'R4', 'pipelined-requests-drained', H + '::on_read_request', orr.loc(), 'buffered complete requests are not all forwarded before more is read', 'loops while a complete request is buffered')
+    # drained: the forward lies on a cycle, the scan result is the only way out of it, and the client read that follows is
+    # reached only when the scan found no further complete request (req_len < 0) - whatever the loop is spelled as
+    rl_defs = [d for v_ in [q.local_var(orr, 'req_len')] if v_ for _s, d in q.local_defs(orr, v_['did'])]
+    scan_ok = bool(rl_defs) and all(q.render(orr, d).endswith('find_request_len(m_client_in_buffer, m_num_client_in_bytes)') for d in rl_defs)
+    on_cycle = bool(fw_) and orr.cfg.node_block(fw_[0]) in orr.cfg.reach_from(orr.cfg.node_block(fw_[0]))
+    rescan = bool(popc) and any(orr.cfg._reaches(orr.cfg.node_block(popc[0]), orr.cfg.node_block(x)) for x in orr.all_nodes() if x['k'] == 'call' and (q.callee_name(x) or '').endswith('find_request_len'))
+    reads_ = [c for c in orr.calls() if (q.callee_name(c) or '').endswith('async_read_some') and q.render(orr, c.get('obj')) == 'm_client_connection']
+
+    def no_more(a, p_):
+        c_ = q.cmp_atom(a)
+        if not c_ or q.render(orr, q.strip_casts(c_[1])) != 'req_len' or q.int_value(c_[2]) != 0:
+            return False
+        return (c_[0] if p_ else q.NEG[c_[0]]) == '<'
+    gated = bool(reads_) and all(any(no_more(a, p_) for a, p_ in q.guards_at(orr, c)) for c in reads_)
+    run.check(scan_ok and on_cycle and rescan and gated, 'R4', 'pipelined-requests-drained', H + '::on_read_request', orr.loc(), 'buffered complete requests are not all forwarded before more is read', 'loops while a complete request is buffered')
 
     run.clause('(3) failed resolve / failed connect answer 503 and return before anything is sent to an origin')
     for name, fail, forward in (('on_domain_lookup', None, 'open_forward_connection'), ('on_connected', None, 'write_server_send_buffer')):
